@@ -93,7 +93,7 @@ def validate_traces(scratch, prog, trace_lines, name, timeout=1800):
         f.write("---- MODULE ViewTraceRun ----\nEXTENDS ViewTrace\n====\n")
     cfg = os.path.join(d, "ViewTraceRun.cfg")
     write_cfg(cfg, spec="Spec")
-    res = run_tlc(mod, cfg, lib_areas=("view",), workers=1, env={"TRACE_FILE": tf}, timeout=timeout, heap="3g")
+    res = run_tlc(mod, cfg, lib_areas=("view", "text"), workers=1, env={"TRACE_FILE": tf}, timeout=timeout, heap="3g")
     outs = res.printed_json()
     summary = [o for o in outs if isinstance(o, dict) and o.get("summary")]
     mism = [o for o in outs if isinstance(o, dict) and "clause" in o]
@@ -136,7 +136,7 @@ def generate(scratch, prog, t, ps, seeds, targets, actions, depth, num, seed, na
     with open(gf, "w") as f:
         json.dump({"prog": view_prog.tlc_prog(prog), "t": t, "ps": list(ps), "seeds": seeds,
                    "targets": [{"path": g["path"], "st": g["st"], "w": g["w"], "extra": g["extra"]} for g in targets],
-                   "actions": actions, "depth": depth}, f, separators=(",", ":"))
+                   "actions": actions, "depth": depth, "nopts": len(view_driver.TEXT_OPTS)}, f, separators=(",", ":"))
     mod = os.path.join(d, "ViewGenRun.tla")
     with open(mod, "w") as f:
         f.write("---- MODULE ViewGenRun ----\nEXTENDS ViewGen\n====\n")
@@ -170,6 +170,8 @@ def replay(scratch, prog, structs, traces, name, san=False):
                     f.write("E\n")
                 elif ev["e"] == "cp":
                     f.write("C %d\n" % ev["dst"])
+                elif ev["e"] == "text":
+                    f.write("X %d\n" % ev["opt"])
     exe = os.path.join(d, "driver")
     src = os.path.join(d, "driver.cc")
     with_eq = True
@@ -196,7 +198,29 @@ def replay(scratch, prog, structs, traces, name, san=False):
     with open(outp) as f:
         lines = [l for l in f.read().split("\n") if l]
     os.remove(exe)
+    lines = [add_text_trees(l) if '"e":"text"' in l else l for l in lines]
     return lines, text, build_note
+
+
+def add_text_trees(line):
+    """Parse recorded text output into trees (format conversion only; TLC judges the tree)."""
+    from . import view_text
+    d = json.loads(line)
+    for ev in d["ev"]:
+        if ev["e"] == "text":
+            txt = "".join(chr(c) for c in ev.pop("text"))
+            ev["raw"] = txt
+            o = view_driver.TEXT_OPTS[ev["opt"] - 1]
+            ev["opt"] = {"ml": o[0], "comments": o[1], "base": o[2], "group": o[3], "idx": ev["opt"]}
+            if ev["skipped"]:
+                ev["tree"] = []
+            else:
+                tree, err = view_text.parse(txt)
+                if tree is None:
+                    ev["tree"] = [{"n": "(unparseable: %s)" % err, "v": {"k": "id", "s": ""}}]
+                else:
+                    ev["tree"] = tree
+    return json.dumps(d, separators=(",", ":"))
 
 
 def flip_bit(buf, i):
@@ -275,3 +299,18 @@ def behaviour_traces(scratch, prog, mode, actions, nbeh, depth, seed, tag):
         return [], text, None, structs, gens
     lines, text, note = replay(scratch, prog, structs, traces, tag + "_" + prog.name)
     return lines, text, note, structs, gens
+
+
+def model_check(scratch, prog, t, ps, alphabet, maxlen, targets, name, invariants, properties=(), timeout=900, workers=4):
+    """Design-level MC of the reference semantics (spec/view/ViewMC.tla) for one struct."""
+    d = scratch.sub("mc_" + name)
+    mf = os.path.join(d, "mc.json")
+    with open(mf, "w") as f:
+        json.dump({"prog": view_prog.tlc_prog(prog), "t": t, "ps": list(ps), "alphabet": alphabet, "maxlen": maxlen,
+                   "targets": [{"path": g["path"], "st": g["st"], "w": g["w"], "extra": g["extra"]} for g in targets]}, f, separators=(",", ":"))
+    mod = os.path.join(d, "ViewMCRun.tla")
+    with open(mod, "w") as f:
+        f.write("---- MODULE ViewMCRun ----\nEXTENDS ViewMC\n====\n")
+    cfg = os.path.join(d, "ViewMCRun.cfg")
+    write_cfg(cfg, spec="Spec", invariants=invariants, properties=properties)
+    return run_tlc(mod, cfg, lib_areas=("view",), workers=workers, env={"MC_FILE": mf}, timeout=timeout, heap="3g", coverage=True)
